@@ -85,6 +85,7 @@ def shuffle_blocks(
         mask = np.pad(mask, pads, mode="edge")
     elif mode == "inplace":
         # Use mask to prevent shuffling of blocks out of bounds
+        mask = mask.copy()  # the mask passed must not be written to
         trim = x.shape - (np.array(x.shape) % block)
         for axis, t in enumerate(trim):
             np.swapaxes(mask, 0, axis)[slice(t, None)] = False
